@@ -5,7 +5,7 @@ from vlib import hexs, exc_kind, ilist
 
 PROP = "C17"
 TRUSTED = [
-    "Model/ICal.lean is a hand model of tzical._parse_rfc/_parse_offset/get and _tzicalvtz._find_comp/_find_compdt (with the ten-entry cache) and of _tzinfo.fromutc/_fold_status/is_ambiguous; tied by the ical.* correspondence ops",
+    "Model/ICal.lean is a hand model of tzical._parse_rfc/_parse_offset/get and _tzicalvtz._find_comp/_find_compdt (with the ten-entry cache) and of _tzinfo.fromutc/_fold_status/is_ambiguous; tied by the ical.* correspondence ops; _parse_rfc, _parse_offset, _find_comp/_find_compdt/utcoffset/dst/tzname are in addition re-translated from source on every run and proved equal to the model (gen_eq_model_*)",
     "a component's recurrence is abstracted to its sorted onset list: rrulestr(...) of the component lines and rrule.before() are C13/C01/C12 (ical_rrule_link_partial); the correspondence reads the onsets back from the implementation's own rrule objects",
     "str.splitlines/rstrip/strip/upper/int are modelled for ASCII text only",
 ]
@@ -177,9 +177,25 @@ def strip_rrulelines(model_line):
         out.append(tzid + "=" + "|".join(cs))
     return "ok %s %s" % (n, ";".join(out))
 
+def group_rejected(lines):
+    """what tzical does with a component's recurrence lines: rrulestr(..., compatible=True, ignoretz=True, cache=True) raises
+    ValueError (since fix D-C01-interval also for a rule whose INTERVAL is below 1)"""
+    from dateutil import rrule
+    if not lines:
+        return False
+    try:
+        with warnings.catch_warnings():
+            warnings.simplefilter("ignore")
+            rrule.rrulestr("\n".join(lines), compatible=True, ignoretz=True, cache=True)
+    except ValueError:
+        return True
+    return False
+
+def _unhex_lines(txt):
+    return [bytes.fromhex(h).decode() if h != "." else "" for h in txt.strip("[]").split(",") if h]
+
 def rrulestr_rejects(model_line):
     """do the recurrence lines the model collected for some component make rrulestr raise (as tzical calls it)?"""
-    from dateutil import rrule
     _, _, rest = model_line.partition(" ")
     _, _, zones = rest.partition(" ")
     for z in zones.split(";") if zones else []:
@@ -187,37 +203,37 @@ def rrulestr_rejects(model_line):
             parts = c.split(",", 4)
             if len(parts) < 5:
                 continue
-            lines = [bytes.fromhex(h).decode() if h != "." else "" for h in parts[4].strip("[]").split(",") if h]
-            if lines:
-                try:
-                    with warnings.catch_warnings():
-                        warnings.simplefilter("ignore")
-                        rrule.rrulestr("\n".join(lines), compatible=True, ignoretz=True, cache=True)
-                except ValueError:
-                    return True
+            if group_rejected(_unhex_lines(parts[4])):
+                return True
     return False
 
 def rrule_groups_rejected(line):
-    from dateutil import rrule
     groups = line[3:].split(";") if len(line) > 3 else []
-    for g in groups:
-        lines = [bytes.fromhex(h).decode() if h != "." else "" for h in g.strip("[]").split(",") if h]
-        if lines:
-            try:
-                with warnings.catch_warnings():
-                    warnings.simplefilter("ignore")
-                    rrule.rrulestr("\n".join(lines), compatible=True, ignoretz=True, cache=True)
-            except ValueError:
-                return True
-    return False
+    return any(group_rejected(_unhex_lines(g)) for g in groups)
 
 def mutate_text(rng, text):
     lines = text.replace("\r\n ", "").split("\r\n")
     lines = [l for l in lines if l]
     if len(lines) < 3:
         return text + "TZID:x\r\n"
-    k = rng.randint(0, 11)
+    k = rng.randint(0, 13)
     protected = lambda l: l.upper().startswith(("RRULE", "DTSTART", "RDATE"))
+    if k in (12, 13):
+        idx = [i for i, l in enumerate(lines) if l.upper().startswith("RRULE")]
+        if idx and k == 12:
+            i = rng.choice(idx)
+            lines[i] = lines[i] + rng.choice([";INTERVAL=0", ";INTERVAL=-1", ";INTERVAL=2", ";FREQ=BOGUS", ";BYDAY=XX", ";COUNT=x", ";UNTIL=zzz", ";WKST=9",
+                                              ";BYSETPOS=400", "", ";"]) if rng.random() < 0.8 else \
+                rng.choice(["RRULE:garbage", "RRULE:INTERVAL=2", "EXRULE:FREQ=DAILY;INTERVAL=0", "RRULE:FREQ=YEARLY;INTERVAL=0;BYMONTH=3;BYDAY=1SU", "RRULE:"])
+        else:
+            idx = [i for i, l in enumerate(lines) if l.upper().startswith("DTSTART")]
+            if idx:
+                i = rng.choice(idx)
+                if rng.random() < 0.5:
+                    del lines[i]                      # a component with a recurrence line but no DTSTART
+                else:
+                    lines[i] = rng.choice(["DTSTART:notadate", "DTSTART;VALUE=DATE:19700101", "DTSTART;TZID=X:19700101T000000", "DTSTART:19700101", "DTSTART:"])
+        return "\r\n".join(lines) + "\r\n"
     if k == 0:
         i = rng.randrange(len(lines)); del lines[i]
     elif k == 1:
@@ -311,9 +327,24 @@ def correspondence(ctx):
             g = "err %s" % exc_kind(ex)
         reqs.append("ical.offset " + hexs(sv)); exp.append(("offset", g))
     got = ctx.driver(reqs)
+    # the TRANSLATED _parse_rfc (Generated/TzRfcKernels.lean) on the same texts: equal to the model by C17.gen_eq_model_parse_rfc;
+    # run through the driver as well so that the translator's primitives (Model/RfcPy.lean) are exercised on every run
+    if ((ctx.lean.gen_report.get("kernels") or {}).get("TzRfcKernels") or {}).get("ok"):
+        pq = [q for q, (kind, _) in zip(reqs, exp) if kind == "parse"]
+        gg = ctx.driver(["tzgen.ical.rfc " + q.split()[1] for q in pq])
+        mm = dict(zip(reqs, got))
+        for q, g2 in zip(pq, gg):
+            if g2 != mm[q]:
+                ctx.mismatch("tzgen.ical.rfc", q[:300], mm[q][:300], g2[:300])
+        ctx.count("translated_parse_rfc_runs", len(pq)); ctx.traces += len(pq)
+    else:
+        ctx.note("TzRfcKernels not regenerated: %s" % (((ctx.lean.gen_report.get("kernels") or {}).get("TzRfcKernels") or {}).get("error"),))
     pending = []
+    accepted = []
     for q, (kind, e), g in zip(reqs, exp, got):
         e = e.replace("err ParserError", "err ValueError")       # ParserError is a ValueError
+        if kind == "parse" and e.startswith("ok "):
+            accepted.append((q, e))
         if kind == "parse":
             if e == "err ValueError" and g.startswith("ok ") and rrulestr_rejects(g):
                 # the component's recurrence lines are rejected by rrulestr (C13's domain): the model stops before that call
@@ -336,6 +367,13 @@ def correspondence(ctx):
             ctx.count("parse_rejected_by_rrulestr")
         else:
             ctx.mismatch("ical." + kind, q, e, g)
+    # the other direction: a text the implementation ACCEPTS must not contain a component whose recurrence lines are
+    # rejected by rrulestr
+    outs = ctx.driver(["ical.rrulecalls " + q.split()[1] for q, _ in accepted])
+    for (q, e), o in zip(accepted, outs):
+        if rrule_groups_rejected(o):
+            ctx.mismatch("ical.parse", q[:300], e[:200], "err ValueError (rrulestr rejects a component's recurrence lines)")
+    ctx.count("accepted_texts_rule_checked", len(accepted))
     ctx.traces += len(reqs)
     ctx.count("corr_texts", len(texts))
     # component selection, fromutc and the cache on real zones
@@ -643,10 +681,120 @@ def oracle(ctx):
         if got != "ValueError":
             ctx.violation("malformed VTIMEZONE [%s]: %s instead of ValueError" % (cls, got), {"kind": "malformed", "class": cls}, text)
 
-KNOWN = {}
+class _Alarm(BaseException):
+    pass
+
+def under_alarm(seconds, fn):
+    """run fn() under a wall-clock alarm; returns ("ok", value) | ("raised", kind) | ("timeout", None)"""
+    import signal
+    def h(*a):
+        raise _Alarm()
+    old = signal.signal(signal.SIGALRM, h)
+    signal.setitimer(signal.ITIMER_REAL, seconds)
+    try:
+        try:
+            return "ok", fn()
+        except _Alarm:
+            return "timeout", None
+        except ValueError:
+            return "raised", "ValueError"          # ParserError is a ValueError
+        except Exception as ex:
+            return "raised", exc_kind(ex)
+    finally:
+        signal.setitimer(signal.ITIMER_REAL, 0)
+        signal.signal(signal.SIGALRM, old)
+
+COMP_TEMPLATE = ("BEGIN:VTIMEZONE\r\nTZID:X\r\nBEGIN:STANDARD\r\n%s\r\nTZOFFSETFROM:+0200\r\nTZOFFSETTO:+0100\r\nEND:STANDARD\r\n"
+                 "BEGIN:DAYLIGHT\r\nDTSTART:19700329T020000\r\nRRULE:FREQ=YEARLY;BYMONTH=3;BYDAY=-1SU\r\nTZOFFSETFROM:+0100\r\nTZOFFSETTO:+0200\r\n"
+                 "END:DAYLIGHT\r\nEND:VTIMEZONE\r\n")
+DT = "DTSTART:19701025T030000"
+BAD_RULE_CLASSES = {
+    # recurrence lines rrulestr rejects
+    "rrule-bad-freq": [DT, "RRULE:FREQ=BOGUS"], "rrule-missing-freq": [DT, "RRULE:INTERVAL=2;BYMONTH=10"], "rrule-garbage": [DT, "RRULE:garbage"],
+    "rrule-bad-byday": [DT, "RRULE:FREQ=YEARLY;BYDAY=XX"], "rrule-bad-count": [DT, "RRULE:FREQ=YEARLY;COUNT=x"], "rrule-bad-until": [DT, "RRULE:FREQ=YEARLY;UNTIL=zzz"],
+    "rrule-empty": [DT, "RRULE:"], "dtstart-bad-value": ["DTSTART:notadate", "RRULE:FREQ=YEARLY;BYMONTH=10;BYDAY=-1SU"],
+    "rdate-bad-value": [DT, "RDATE:notadate"], "exrule-bad-freq": [DT, "RRULE:FREQ=YEARLY", "EXRULE:FREQ=NEVER"],
+    # rules that never advance: the zone loaded and every lookup spun forever (review 3b F4); repaired by fix D-C01-interval
+    # (rrule.__init__ rejects an interval below 1, so rrulestr raises ValueError inside _parse_rfc)
+    "rrule-interval-0-daily": [DT, "RRULE:FREQ=DAILY;INTERVAL=0"], "rrule-interval-0-yearly": [DT, "RRULE:FREQ=YEARLY;INTERVAL=0;BYMONTH=10;BYDAY=-1SU"],
+    "rrule-interval-0-minutely": [DT, "RRULE:FREQ=MINUTELY;INTERVAL=0"], "rrule-interval-negative": [DT, "RRULE:FREQ=YEARLY;INTERVAL=-1"],
+    "exrule-interval-0": [DT, "RRULE:FREQ=YEARLY;BYMONTH=10;BYDAY=-1SU", "EXRULE:FREQ=DAILY;INTERVAL=0"],
+    # a recurrence line but no DTSTART
+    "rrule-without-dtstart": ["RRULE:FREQ=YEARLY;BYMONTH=10;BYDAY=-1SU"], "rdate-without-dtstart": ["RDATE:19701025T030000,19711031T030000"],
+    "exdate-without-dtstart": ["EXDATE:19701025T030000"],
+    "dtstart-unsupported-param": ["DTSTART;TZID=X:19701025T030000", "RRULE:FREQ=YEARLY;BYMONTH=10;BYDAY=-1SU"],
+}
+# valid RFC rules outside "yearly": a lookup walks the rule from DTSTART, so its cost is the number of occurrences before the query
+SUBDAILY_CLASSES = {"rule-hourly": [DT, "RRULE:FREQ=HOURLY"], "rule-minutely": [DT, "RRULE:FREQ=MINUTELY"], "rule-secondly": [DT, "RRULE:FREQ=SECONDLY"],
+                    "rule-daily": [DT, "RRULE:FREQ=DAILY"], "rule-weekly": [DT, "RRULE:FREQ=WEEKLY;BYDAY=SU"], "rule-monthly": [DT, "RRULE:FREQ=MONTHLY;BYDAY=-1SU"]}
+
+def load_and_ask(text):
+    z = load(text).get()
+    return str(datetime.datetime(2020, 6, 1, 12, tzinfo=z).utcoffset())
+
+def oracle_bad_rules(ctx):
+    """malformed recurrence parts raise ValueError WHEN THE DEFINITION IS LOADED; no definition that loads may make a lookup hang"""
+    budget_s = 2.0
+    for cls, body in BAD_RULE_CLASSES.items():
+        text = COMP_TEMPLATE % "\r\n".join(body)
+        ctx.case(("malformed", cls)); ctx.count("malformed_" + cls)
+        st, val = under_alarm(budget_s, lambda: load(text))
+        if st == "raised" and val == "ValueError":
+            continue
+        case = {"kind": "malformed", "class": cls, "load": st if st != "raised" else val}
+        if st == "ok":
+            st2, val2 = under_alarm(budget_s, lambda: load_and_ask(text))
+            case["lookup"] = "timeout" if st2 == "timeout" else (val2 if st2 == "raised" else "answered")
+        ctx.violation("malformed VTIMEZONE [%s]: loading %s instead of raising ValueError%s" % (
+            cls, "timed out" if st == "timeout" else ("raised " + val if st == "raised" else "succeeded"),
+            (", then utcoffset(): " + case["lookup"]) if "lookup" in case else ""), case, text)
+    for cls, body in SUBDAILY_CLASSES.items():
+        text = COMP_TEMPLATE % "\r\n".join(body)
+        ctx.case(("rule-frequency", cls)); ctx.count("frequency_" + cls)
+        st, val = under_alarm(budget_s, lambda: load_and_ask(text))
+        if st == "ok":
+            continue
+        case = {"kind": "rule-frequency", "class": cls, "outcome": st if st != "raised" else val}
+        ctx.violation("VTIMEZONE with a valid %s component rule: utcoffset(2020-06-01) %s" % (
+            cls, "did not return within %.0f s" % budget_s if st == "timeout" else "raised " + val), case, text)
+
+_oracle_without_bad_rules = oracle
+
+def oracle(ctx):
+    _oracle_without_bad_rules(ctx)
+    oracle_bad_rules(ctx)
+
+KNOWN = {
+    # a lookup walks the component's rule from DTSTART (rrule.before with cache=True): for HOURLY / MINUTELY / SECONDLY rules that is
+    # 4*10^5 .. 10^9 occurrences. Class AND symptom: only those frequencies, only a time-out (a wrong answer or an exception is still reported)
+    "D-C17-subdaily-rule-cost": lambda v: v["case"].get("kind") == "rule-frequency" and v["case"].get("class") in ("rule-hourly", "rule-minutely", "rule-secondly")
+        and v["case"].get("outcome") == "timeout",
+}
+
+def _shared_funcs():
+    from dateutil.tz import tz as tzmod
+    V = tzmod._tzicalvtz
+    funcs = [V._find_comp, V._find_compdt, V.utcoffset, V.dst]
+    tn = getattr(V.tzname, "__wrapped__", V.tzname)
+    if hasattr(tn, "__code__"):
+        funcs.append(tn)
+    return funcs
 
 def replay(ctx, payload):
+    c = payload["violation"]["case"]
     print(payload["violation"]["what"])
+    if c.get("kind") in ("history", "threads") and c.get("text"):
+        import tzshared as S
+        mk = lambda: load(c["text"]).get()
+        with warnings.catch_warnings():
+            warnings.simplefilter("ignore")
+            if c["kind"] == "history":
+                return S.replay_history(mk(), mk, c["history_wire"])
+            return S.replay_threads(mk, mk, _shared_funcs(), "_cache_lock", c)
+    if c.get("kind") == "malformed" and isinstance(payload["violation"].get("detail"), str):
+        st, val = under_alarm(3.0, lambda: load(payload["violation"]["detail"]))
+        print("load:", st, val)
+        return st == "raised" and val == "ValueError"
     return False
 
 
@@ -665,3 +813,85 @@ TRUSTED = TRUSTED + [
     "named primitives of the ObjPy translator (Model/ObjPy.lean), trusted with their documented meaning and exercised by the tzgen.ical.* / tzgen.str.* / tzgen.range.init|eq validation against the implementation's methods on every run: ASCII str.strip/int()/indexing/slicing, `comp.rrule.before(dt, inc=True)` as the last onset <= dt of the component's onset list, `list.index` on (naive datetime, fold) keys, list insert(0)/append/pop, `with self._cache_lock` transparent, `for` loops as monadic folds with a break flag, `relativedelta(**kwargs)` for the keywords month/day/weekday/yearday/nlyearday/seconds/hours producing the model's Delta record, `datetime(year,1,1) + relativedelta` = TzStr.applyDelta, `parser._parsetz` = TzStr.parse, timedelta(seconds=) with its OverflowError, int-or-None offset arguments (timedelta arguments not modelled), the object under construction as the tuple of its fields",
 ]
 # --- end of the appended block
+
+# --- ONE ZONE OBJECT, MANY CALLS (wt-tzrule): a _tzicalvtz keeps a ten-entry lookup cache in two parallel lists under a lock.
+def oracle_shared(ctx):
+    import tzshared as S
+    from dateutil import tz
+    rng = ctx.subrng("shared")
+    funcs = _shared_funcs()
+    for k in range(ctx.budget(4, 30)):
+        spec = gen_spec(rng)
+        text = vtimezone(spec, order=k % 2)
+        mk = lambda text=text: load(text).get()
+        shared = mk()
+        case = {"zone": "tzical", "tzstr": tzstr_of(spec), "text": text}
+        def near(y, n=1):
+            qs = []
+            for tu in transitions_utc(spec, y):
+                for off in (spec["std"], spec["dst"]):
+                    for _ in range(n):
+                        w = tu + datetime.timedelta(seconds=off + rng.choice([-3600, -1, 0, 1, 1800, 3600]))
+                        f = rng.randint(0, 1)
+                        qs.append(("wall", w, f)); qs.append(("comp", w, f))
+            return qs
+        hist = []
+        for y in rng.sample(range(1975, 2035), 8):
+            hist += near(y)                                      # > 10 distinct keys several times over
+        hist += [("wall", datetime.datetime(9999, 12, 31, 23, 59, 59), 1), ("wall", datetime.datetime(1, 1, 1), 0), ("wall", datetime.datetime(1960, 1, 1), 0)]
+        pool = list(hist)
+        hist += [rng.choice(pool) for _ in range(60)]            # repeats, in and out of the cache
+        hist += [("utc", tu + datetime.timedelta(seconds=d)) for tu in transitions_utc(spec, 2021) for d in (-1, 0, 1)]
+        with warnings.catch_warnings():
+            warnings.simplefilter("ignore")
+            if not S.history(ctx, "tzical-cache", shared, mk, hist, case):
+                continue
+            # the two lists stay in step: same length, at most ten, and entry i of one belongs to entry i of the other
+            ctx.case(("cache-shape", case["tzstr"]))
+            if len(shared._cachedate) != len(shared._cachecomp) or len(shared._cachedate) > 10:
+                ctx.violation("tzical zone cache lists out of step after %d lookups: %d keys, %d components" % (len(hist), len(shared._cachedate), len(shared._cachecomp)),
+                              dict(case, kind="cache-shape"), text)
+                continue
+            ref = mk()
+            for (d, fo), c in zip(list(shared._cachedate), list(shared._cachecomp)):
+                if shared._comps.index(c) != ref._comps.index(ref._find_comp(d.replace(tzinfo=ref, fold=fo))):
+                    ctx.violation("tzical zone cache entry (%s, fold=%d) holds component %d, a fresh zone selects %d" % (
+                        d.isoformat(), fo, shared._comps.index(c), ref._comps.index(ref._find_comp(d.replace(tzinfo=ref, fold=fo)))),
+                        dict(case, kind="cache-entry"), text)
+                    break
+            # two threads: a miss that inserts (writer) against a lookup of the same / a cached key, pre-empted at every statement
+            if k >= ctx.budget(2, 10):
+                continue
+            y0, y1 = rng.sample(range(2000, 2030), 2)
+            text2 = vtimezone(spec, order=k % 2, first_year=1999)          # short rules: the schedules re-load the definition every time
+            mk = lambda text2=text2: load(text2).get()
+            tu0, tu1 = transitions_utc(spec, y0), transitions_utc(spec, y1)
+            k0 = ("comp", tu0[0] + datetime.timedelta(seconds=spec["dst"] + 3600), 0)        # in DST
+            k1 = ("comp", tu1[1] + datetime.timedelta(seconds=spec["std"] + 3600), 0)        # back on standard time
+            k2 = ("off", tu1[0] + datetime.timedelta(seconds=spec["dst"] + 60), 0)
+            for warm, jobs in (([k0], [[k1], [k1]]), ([k0], [[k1], [k0]]), ([k0, k2], [[k1], [k2]]), ([], [[k0], [k1]])):
+                if not S.threads(ctx, "tzical-two-threads", mk, mk, funcs, "_cache_lock", warm, jobs, dict(case, years=[y0, y1], text=text2)):
+                    break
+    ctx.count("shared_object_zones")
+
+_oracle_without_shared = oracle
+
+def oracle(ctx):
+    _oracle_without_shared(ctx)
+    oracle_shared(ctx)
+
+_correspondence_without_audit = correspondence
+
+def correspondence(ctx):
+    _correspondence_without_audit(ctx)
+    import tzshared
+    tzshared.run_audit(ctx, ["_tzicalvtz", "_tzicalvtzcomp", "_tzinfo"])
+
+TRUSTED = TRUSTED + [
+    "one object, many calls: harness/tzshared.py — history stream on one _tzicalvtz (> 10 distinct lookups several times over, repeats, year 1 / year 9999, then a check that the two cache lists are in step entry by entry), two-thread statement-level schedules over _find_comp/_find_compdt/utcoffset/dst/tzname with `_cache_lock` replaced by a cooperative lock, and an AST audit that nothing but the two cache lists is written outside __init__",
+]
+# --- end of the appended block
+
+TRUSTED = TRUSTED + [
+    "translator tie for tzical._parse_rfc: harness/translate_rfc.py re-translates it from /repo's working tree into Generated/TzRfcKernels.lean on every run (while-loop body and condition, line-loop body on the record of carried locals, whole function); named primitives in Model/RfcPy.lean (split(c,1) with its unpack ValueError, del l[i], l[i] += x, for-loops that only raise, the fuelled while loop - proved never to exhaust its fuel -, rrulestr(...) as a parameter: C13's domain, _tzicalvtzcomp / _tzicalvtz constructors as records, self._vtz as an insertion-ordered association list, locals first bound inside a component starting at the record's defaults); exercised through the driver op tzgen.ical.rfc on every correspondence text",
+]
